@@ -1,6 +1,7 @@
 package nfs
 
 import (
+	"github.com/mit-pdos/go-nfsd/dir"
 	"github.com/mit-pdos/go-nfsd/fh"
 	"github.com/mit-pdos/go-nfsd/fstxn"
 	"github.com/mit-pdos/go-nfsd/inode"
@@ -559,4 +560,163 @@ func VerifC14Background() {
 	}
 	vNoUnprotected("mon:shared-state-accessed-only-under-its-protection")
 	verifrt.Assert(verifrt.AccessCount() > 0, "mon:monitor-saw-accesses")
+}
+
+// VerifC13Readdir: page through a symbolic directory with READDIR or READDIRPLUS, passing back the
+// cookie of the last entry received and an arbitrary size limit on every page: every page makes
+// progress or signals eof, cookies increase, the enumeration ends, every live slot is returned exactly
+// once with its own file id and name, and no empty slot is returned.
+func VerifC13Readdir() {
+	w := vWorld("d")
+	dh, dx := w.vLive("dir", nfstypes.NF3DIR)
+	dip := w.boundInode(dx, true)
+	K := w.dirSlots
+	blk := w.d.Peek(dip.VerifBlks()[0])
+	w.assumeDir(dip, true)
+	nslots := dip.Size / 128
+	plus := verifrt.Choose("plus", 0, 1) == 1
+	seen := make([]uint64, K)
+	var cookie uint64
+	eof := false
+	for page := uint64(0); page < K+2 && !eof; page++ {
+		var first *nfstypes.Entry3
+		var firstp *nfstypes.Entryplus3
+		if plus {
+			r := w.nfs.NFSPROC3_READDIRPLUS(nfstypes.READDIRPLUS3args{Dir: dh, Cookie: nfstypes.Cookie3(cookie),
+				Dircount: nfstypes.Count3(verifrt.U32("dircount")), Maxcount: nfstypes.Count3(verifrt.U32("maxcount"))})
+			verifrt.Assert(r.Status == nfstypes.NFS3_OK, "readdirplus-ok")
+			firstp, eof = r.Resok.Reply.Entries, r.Resok.Reply.Eof
+		} else {
+			r := w.nfs.NFSPROC3_READDIR(nfstypes.READDIR3args{Dir: dh, Cookie: nfstypes.Cookie3(cookie), Count: nfstypes.Count3(verifrt.U32("count"))})
+			verifrt.Assert(r.Status == nfstypes.NFS3_OK, "readdir-ok")
+			first, eof = r.Resok.Reply.Entries, r.Resok.Reply.Eof
+		}
+		n := 0
+		last := cookie
+		for first != nil || firstp != nil {
+			var ck, fid uint64
+			var name nfstypes.Filename3
+			if plus {
+				ck, fid, name = uint64(firstp.Cookie), uint64(firstp.Fileid), firstp.Name
+				firstp = firstp.Nextentry
+			} else {
+				ck, fid, name = uint64(first.Cookie), uint64(first.Fileid), first.Name
+				first = first.Nextentry
+			}
+			verifrt.Assert(n == 0 && page == 0 || ck > last, "cookies-strictly-increase")
+			// which slot does this entry come from? (cookies identify slots; the slot is recovered from
+			// the file id and name below, independent of the cookie encoding)
+			found := false
+			for s := uint64(0); s < K; s++ {
+				si, _ := dir.VerifSlot(blk, s)
+				if s < nslots && si != 0 && si == fid && dir.VerifSlotNameEq(blk, s, string(name), w.cmp+1) {
+					seen[s]++
+					found = true
+				}
+			}
+			verifrt.Assert(found, "entry-is-in-the-directory")
+			last = ck
+			n++
+		}
+		verifrt.Assert(eof || n > 0, "page-makes-progress-or-signals-eof")
+		cookie = last
+	}
+	verifrt.Assert(eof, "enumeration-ends")
+	for s := uint64(0); s < K; s++ {
+		si, _ := dir.VerifSlot(blk, s)
+		if s < nslots && si != 0 {
+			verifrt.Assert(seen[s] == 1, "live-entry-returned-exactly-once")
+		} else {
+			verifrt.Assert(seen[s] == 0, "empty-slot-never-returned")
+		}
+	}
+	verifrt.Cover("end")
+}
+
+// VerifC12Zero: I7 is preserved by the procedures that free or re-expose space. Pre-state: allocated
+// blocks handed out are zero (free blocks are zero) and the bytes of the file's last block beyond its
+// size are zero. Post-state: every block the request freed is all-zero on the logical disk (witness
+// byte), and the bytes beyond the new size in the file's last block are zero (witness byte), for
+// files in the direct-block range.
+func VerifC12Zero() {
+	w := vWorld("d")
+	w.stepHooks()
+	h, x := w.vLive("f", nfstypes.NF3REG)
+	ip := w.boundInode(x, true)
+	// bound: representative sizes around the block boundaries of the direct range
+	var sz0 uint64
+	if verifrt.Param("sizes", 1) == 9 {
+		sz0 = verifrt.Choose("oldsize", 5000)
+	} else if verifrt.Param("sizes", 1) == 1 {
+		sz0 = verifrt.Choose("oldsize", 5000, 0, 100, 4096, 8192)
+	} else {
+		sz0 = verifrt.Choose("oldsize", 5000, 0, 1, 100, 4095, 4096, 4097, 8191, 8192, 12000, 32768)
+	}
+	verifrt.Assume(ip.Size == sz0 && ip.ShrinkSize <= 8)
+	// pre: tail of the last block is zero
+	q := verifrt.U64("q")
+	verifrt.Assume(q < 4096)
+	if ip.Size%4096 != 0 {
+		li := verifrt.Split(ip.Size/4096, 8)
+		b := ip.VerifBlks()[li]
+		verifrt.Assume(b == 0 || q < ip.Size%4096 || w.d.Peek(b)[q] == 0)
+	}
+	var st nfstypes.Nfsstat3
+	verifrt.Mark(vMarkOpBegin)
+	switch verifrt.Choose("proc", pSETATTR, pWRITE, pREMOVE) {
+	case pSETATTR:
+		var a nfstypes.Sattr3
+		a.Size.Set_it = true
+		var ns uint64
+		if verifrt.Param("sizes", 1) == 9 {
+			ns = verifrt.Choose("newsize", 100)
+		} else if verifrt.Param("sizes", 1) == 1 {
+			ns = verifrt.Choose("newsize", 100, 0, 4096, 4500, 6000, 9000)
+		} else {
+			ns = verifrt.Choose("newsize", 10, 0, 1, 4095, 4096, 4097, 4500, 6000, 8192, 9000, 20000, 32768)
+		}
+		oldb, newb := (ip.Size+4095)/4096, (ns+4095)/4096
+		verifrt.Assume(newb >= oldb || oldb-newb <= verifrt.Param("bblocks", 1))
+		a.Size.Size = nfstypes.Size3(ns)
+		st = w.nfs.NFSPROC3_SETATTR(nfstypes.SETATTR3args{Object: h, New_attributes: a}).Status
+	case pWRITE:
+		n := verifrt.U64("datalen")
+		verifrt.Assume(n <= verifrt.Param("bbytes", 2))
+		off := verifrt.Choose("off", 0, 50, 4094, 4096, 6000, 8192, 12288)
+		st = w.nfs.NFSPROC3_WRITE(nfstypes.WRITE3args{File: h, Offset: nfstypes.Offset3(off), Count: nfstypes.Count3(n), Stable: nfstypes.FILE_SYNC, Data: verifrt.Bytes("data", n)}).Status
+	case pREMOVE:
+		// remove the file through its (representative) parent directory entry
+		dh, dx := w.vLive("dir", nfstypes.NF3DIR)
+		w.boundInode(dx, true)
+		verifrt.Assume(x == vChildOf(2))
+		st = w.nfs.NFSPROC3_REMOVE(nfstypes.REMOVE3args{Object: nfstypes.Diropargs3{Dir: dh, Name: w.vName("n")}}).Status
+	}
+	if st != nfstypes.NFS3_OK {
+		verifrt.Cover("err")
+		return
+	}
+	// (1) freed blocks are zero
+	qq := verifrt.U64("qq")
+	verifrt.Assume(qq < 4096)
+	nfreed := 0
+	for _, ev := range verifrt.Events() {
+		if ev.Kind == verifrt.EvFree && ev.Obj == interface{}(w.nfs.fsstate.Balloc) {
+			verifrt.Assert(w.d.Peek(ev.A)[qq] == 0, "freed-block-is-zero-on-disk")
+			nfreed++
+		}
+	}
+	if nfreed > 0 {
+		verifrt.Cover("freed")
+	}
+	// (2) tail of the (new) last block is zero
+	np := w.quietInodeAt(x)
+	if np.Kind != inode.NF3FREE && np.Size%4096 != 0 && np.Size <= 8*4096 {
+		li := verifrt.Split(np.Size/4096, 8)
+		b := np.VerifBlks()[li]
+		if b != 0 {
+			verifrt.Assert(q < np.Size%4096 || w.d.Peek(b)[q] == 0, "bytes-beyond-the-size-in-the-last-block-are-zero")
+			verifrt.Cover("tail")
+		}
+	}
+	verifrt.Cover("ok")
 }
